@@ -20,32 +20,9 @@ C_RD_PGET(StringReader_pget_s8)
 int verif_exc;
 size_t g_len, g_off, g_mk, g_vk, g_sk, g_cmk;
 uint8_t g_b0, g_b1, g_b2, g_b3, g_b4, g_b5, g_b6, g_b7;
-bool g_de;
-int g_pc, g_root, g_wc0, g_wc1;
-size_t g_woff0, g_wk;
-bool g_cm, g_wk_ok, g_wsc;
-int g_cq; size_t g_cn, g_cend; bool g_csync;
-int g_nt, g_t0, g_t1, g_t2, g_t3, g_t4, g_t5;
-int g_stage; size_t g_fin_off;
-
-/* the real bodies of the reader functions (extracted by props/rw_common.py); in the C05 groups every call to them is
- * replaced by its contract */
-#define CAT_(a, b) a##b
-#define CAT(a, b) CAT_(a, b)
-#define PGET(T) CAT(StringReader_pget__, T)
-#define GET(T) CAT(StringReader_get__, T)
-#define SWPUT(T) CAT(StringWriter_put__, T)
-#define SWPPUT(T) CAT(StringWriter_pput__, T)
-#define BWPUT(T) CAT(BufferWriter_put__, T)
-#define BWPPUT(T) CAT(BufferWriter_pput__, T)
-#include "x_reader_core.c"
-#define T int8_t
-#define NATIVE 1
-#define CONVT(p) (*(p))
-#define CTORT(w, v) (*(w) = (v))
-#include "x_rw_tmpl.inc"
-#include "x_one__int8_t.inc"
-#undef T
+size_t g_wk;
+struct c05_skip_ghost g_w;
+struct c05_ghost g_j;
 
 #define IN_BYTES uint8_t in_b0, in_b1, in_b2, in_b3, in_b4, in_b5, in_b6, in_b7; g_b0 = in_b0; g_b1 = in_b1; g_b2 = in_b2; g_b3 = in_b3; \
                  g_b4 = in_b4; g_b5 = in_b5; g_b6 = in_b6; g_b7 = in_b7
